@@ -5,11 +5,13 @@ import Chewing.Proofs.EditorRevalidate
 
 C05 / C18 prove the bound `len ≤ auto_commit_threshold` after the keys that end in `Entering`.  This file
 proves a bound for EVERY state of all four kinds and every public operation, and says exactly which
-histories it covers — because for the others it is FALSE in the code (see `Props/C05Bound.lean`,
-`fuzzy_unbounded_refuted`, `cancel_unbounded_refuted`):
+histories it covers (before the FX3/FX4 repair it was FALSE for the others — unbounded growth under prefix lookup
+and through `cancel_selecting`, see `Props/C05Bound.lean`; since the repair the auto-commit runs in both editing
+states, neither lookup strategy nor layout is restricted any more, and `EditorLinkBound3.lean` proves the slightly
+weaker invariant `Within1` for ALL histories):
 
-* `Within B K e`: thresholds `≤ B`, every easy-symbol expansion `≤ K` characters, exact lookup
-  (`LookupStrategy::Standard`), and `len ≤ B` — `≤ B + 1` while a candidate list is open (the simple engine
+* `Within B K e`: thresholds `≤ B`, every easy-symbol expansion `≤ K` characters,
+  and `len ≤ B` — `≤ B + 1` while a candidate list is open (the simple engine
   opens its one-word list BEFORE the auto-commit runs);
 * `within_apply`: every operation keeps `Within` — all keys in all four states, `select`, `start_selecting`,
   `commit`, `clear`, …; the calls that may close a list WITHOUT an auto-commit (`cancel_selecting`, and the
@@ -413,7 +415,7 @@ theorem gstep_enteringNext {K : Nat} (hK : 1 ≤ K) (sh : Shared D L) (ha : Abbr
 /-! ## `EnteringSyllable` -/
 
 /-- the layout never answers `Fuzzy` to `key_press` (true of the real layouts: only `fuzzy_key_press`, which
-    is used under `LookupStrategy::FuzzyPartialPrefix`, does) -/
+    is used under `LookupStrategy::FuzzyPartialPrefix`, does).  No longer a hypothesis of anything below (FX3 repair) -/
 def NoFuzzy : Prop := ∀ l ev s, (env.keyPress l ev).1 ≠ .fuzzy s
 
 /-- an arm of `EnteringSyllable`: at most one symbol more, and then the key ends in `Entering` or stays in
